@@ -247,7 +247,14 @@ func (c *c04chain) fill(intn func(int) int) {
 		}
 		switch op {
 		case "is", "is not":
-			if alt {
+			third := i%3 == 2
+			if intn != nil {
+				third = intn(3) == 0
+			}
+			if third {
+				// a test of two words that takes no argument: what follows it is no part of it
+				c.operands[i+1] = &gen.ETest{Test: "whole number"}
+			} else if alt {
 				c.operands[i+1] = &gen.ETest{Test: "pos"}
 			} else {
 				c.operands[i+1] = &gen.ETest{Test: "eq", Args: []gen.Expr{&gen.ENum{Text: "2"}}}
